@@ -281,7 +281,9 @@ class Gen:
     def bool_sub(self, scopes, depth, classes):
         r = self.rng
         if r.chance(50):
-            sub = self.select(scopes, depth - 1, want=None, classes=classes, plain=True)
+            # mostly plain blocks; sometimes a grouped block (GROUP BY / HAVING inside a correlated subquery: the
+            # decorrelation has to add the correlated columns to the subquery's own grouping)
+            sub = self.select(scopes, depth - 1, want=None, classes=classes, plain=not r.chance(self.o.get("grouped_sub_chance", 25)))
             neg = r.below(2)
             classes.add("exists")
             return "(%sEXISTS (%s))" % ("NOT " if neg else "", sub.sql), "(exists %d %s)" % (neg, sub.sx), "bool"
